@@ -8,6 +8,8 @@ package props
 //   fap <width> <IDPrefix> <SeqPrefix> <typ> <alphabet> {...}*      (prefixes in hex; compared with the model, the round trip is not demanded)
 //   fax <width> <typ> <alphabet> {...}*       fa through a failing io.Writer, once per failure point (see below)
 //   fqx <qid> <typ> <enc> <alphabet> {...}*   fq through a failing io.Writer
+//   fapx <width> <IDPrefix> <SeqPrefix> <typ> <alphabet> {...}*   fax with the writer's prefix fields set (a multi-byte SeqPrefix is the
+//        only underlying write of the FASTA writer after the header that is longer than one byte)
 //   fva <width|-> <prec|-> <typ> <alphabet> <name> <desc> <letters> <quals>
 //   fvq <plus> <prec|-> <typ> <enc> <alphabet> <name> <desc> <letters> <quals>
 //
@@ -72,7 +74,7 @@ func c01Exec(input string) string {
 	switch f[0] {
 	case "fva", "fvq":
 		return c01FormatExec(f)
-	case "fax", "fqx":
+	case "fax", "fqx", "fapx":
 		return c01FaultExec(f)
 	case "fa":
 		typ, alpha, rs = f[2], builtinByName(f[3]), sioParseRecs(f[4:])
@@ -140,6 +142,14 @@ func c01FaultExec(f []string) string {
 		typ, alpha, rs = f[2], builtinByName(f[3]), sioParseRecs(f[4:])
 		width := hx.Atoi(f[1])
 		mk = func(w io.Writer) seqio.Writer { return fasta.NewWriter(w, width) }
+	} else if f[0] == "fapx" {
+		typ, alpha, rs = f[4], builtinByName(f[5]), sioParseRecs(f[6:])
+		width, idp, sp := hx.Atoi(f[1]), hx.Unhex(f[2]), hx.Unhex(f[3])
+		mk = func(w io.Writer) seqio.Writer {
+			fw := fasta.NewWriter(w, width)
+			fw.IDPrefix, fw.SeqPrefix = idp, sp
+			return fw
+		}
 	} else {
 		typ, enc, alpha, rs = f[2], sioEnc(f[3]), builtinByName(f[4]), sioParseRecs(f[5:])
 		qid := f[1] == "1"
@@ -286,7 +296,10 @@ func c01FaultGen(g *hx.Gen, alpha, typ string) {
 			rs[i].quals = sioQuals(g, enc, l)
 		}
 	}
-	if g.Chance(0.5) {
+	if g.Chance(0.2) {
+		pp := sioPrefixPairs[g.Intn(len(sioPrefixPairs))]
+		g.Case(fmt.Sprintf("fapx %d %s %s %s %s", g.Pick(1, 2, 3, 5, 7, 60), hx.Hex([]byte(pp[0])), hx.Hex([]byte(pp[1])), typ, alpha) + sioRecTokens(rs))
+	} else if g.Chance(0.5) {
 		g.Case(fmt.Sprintf("fax %d %s %s", g.Pick(1, 2, 3, 5, 7, 60), typ, alpha) + sioRecTokens(rs))
 	} else {
 		g.Case(fmt.Sprintf("fqx %s %s %d %s", hx.B(g.Chance(0.6)), typ, int(enc), alpha) + sioRecTokens(rs))
@@ -389,7 +402,7 @@ func c01Shrink(input string) []string {
 	switch f[0] {
 	case "fq", "fva", "fqx":
 		hdr = 5
-	case "fap":
+	case "fap", "fapx":
 		hdr = 6
 	case "fvq":
 		hdr = 6
